@@ -5,7 +5,11 @@
    Quantifiers: every call tree / every hook log the C08 protocol accepts / every log the engine
    model produces, every grammar table, every selector and transformer assignment, every handler
    classification consistent with the selection (in particular is_leaf< L > for every L), every
-   stack the run starts from. *)
+   stack the run starts from.
+   Engine-level span theorems (end of file, ParseTreeMono.v): C12_engine_cmono derives the premise of
+   C12_spans_partial from the engine for every table without at<> / rematch<Head, Rules...>
+   (span_table), and C12_spans_engine states "children contained in and ordered within their parent"
+   unconditionally for the tree parse_tree::parse returns on such tables. *)
 From PegtlV Require Import Base Decode Grammar Engine Hooks HookFacts ParseTree ParseTreeSpec ParseTreeFacts ParseTreeEngine ParseTreeSpans.
 Local Open Scope N_scope.
 
@@ -216,3 +220,46 @@ Proof.
   cbv. intuition discriminate.
 Qed.
 Print Assumptions C12_example_monotone.
+
+(* ---- C12_spans on top of the engine (ParseTreeMono.v): the premise of C12_spans_partial is DERIVED ----
+   span_table G: decidable on the table — no rule is the and-predicate at< R > and no rule is
+   rematch< Head, Rules... > with at least one Rule (the two constructs that re-read input a kept match
+   has already consumed; not_at< R > is allowed: when it succeeds, everything inside it failed).
+   For every such table, every selector, every configuration without a throwing Action<Rule>::apply
+   (the hypothesis of C12_engine_exact), every mode, input, fuel and OUTCOME: the call forest of the
+   engine's log under parse_tree's control is position-monotone for the contributing attempts, between
+   the start position and the position the run ends at.  Rewinding after a failed sibling is covered:
+   a failed attempt contributes nothing, and a rule that stays hidden under parse_tree's control is an
+   is_leaf< 8 > leaf, below which nothing is selected. *)
+From PegtlV Require Import AtomFacts ParseTreeMono.
+
+Theorem C12_engine_cmono : forall G sel C, table_wf G -> span_table G = true ->
+  (forall fam r b e t, abeh C fam r b e <> AThrow t) ->
+  forall f d r c o c' evs, eval (pt_table G sel) (pt_cfg C) f d r c = Res o c' evs ->
+  exists ts, call_forest (hooks_of evs) = Some ts /\
+    cmono_forest (selected G sel) (pbyte (cpos c)) (pbyte (cpos c')) ts.
+Proof. exact pt_engine_cmono. Qed.
+Print Assumptions C12_engine_cmono.
+
+(* C12_spans_engine: the clause "children contained in and ordered within their parent" as a theorem
+   about engine runs — on span-safe tables the tree parse_tree::parse returns is the (default-constructed)
+   root over a forest whose every visible position is nested and ordered (tree_ok / forest_ok), all of it
+   between the position the parse started at and the position it ended at. *)
+Theorem C12_spans_engine : forall G sel C, table_wf G -> span_table G = true ->
+  (forall fam r b e t, abeh C fam r b e <> AThrow t) ->
+  forall f d r c c' evs, eval (pt_table G sel) (pt_cfg C) f d r c = Res Ok c' evs ->
+  exists ch, pt_parse G sel C f d r c = PtTree (Node None null_pos None ch) /\
+    forest_ok (pbyte (cpos c)) (pbyte (cpos c')) ch /\
+    tree_ok 0 (pbyte (cpos c')) (Node None null_pos None ch).
+Proof. exact pt_spans_engine. Qed.
+Print Assumptions C12_spans_engine.
+
+(* the hypotheses are satisfiable (the backtracking example above) and exclude exactly the refuting table *)
+Example C12_example_span_safe :
+  table_wf ex_G /\ span_table ex_G = true /\ span_table at_G = false /\
+  span_table [ mknode HNotAt [1]%nat true; mknode one_a [] true ] = true.
+Proof.
+  split; [|repeat split; reflexivity].
+  intros r nd H. destruct r as [|[|[|[|r]]]]; simpl in H; inversion H; subst; simpl; try exact I. destruct r; discriminate.
+Qed.
+Print Assumptions C12_example_span_safe.
